@@ -200,6 +200,22 @@ theorem parseHelloScan_asIs_unprefixed (L : Layout) (tail : Bytes) (hL : L.ok = 
   simp only [parseHelloScan, hasHelloScan_render L tail h, capsScan_render L tail h ht',
     sidScan_render false L tail h ht' (fun _ => hp)]
 
+/-- Finding F7 in the model, for ALL prefixed hellos: with a session-id pattern that accepts no
+prefix, every hello of the grammar whose elements carry a namespace prefix loses its session-id
+(the search finds nothing, `SessionID()` stays 0) while hello and capabilities are still read. -/
+theorem asIs_prefixed_session_id_lost (L : Layout) (tail : Bytes) (hL : L.ok = true)
+    (ht : noLT tail = true) (hp : L.pfx ≠ []) :
+    parseHelloScan false (render L ++ tail) = (true, L.caps.map Prod.fst, none) ∧
+    sidValue (parseHelloScan false (render L ++ tail)).2.2 = some 0 := by
+  have h := L.ok_OK hL
+  have ht' := (noLT_iff tail).mp ht
+  have e : parseHelloScan false (render L ++ tail) = (true, L.caps.map Prod.fst, none) := by
+    simp only [parseHelloScan, hasHelloScan_render L tail h, capsScan_render L tail h ht',
+      sidScan_asIs_prefixed L tail h ht' hp]
+  exact ⟨e, by rw [e]; rfl⟩
+
+example : sampleLayout.pfx ≠ [] ∧ sampleLayout.sid = some [52,50] := by decide
+
 /-- obligation on the regenerated session-id pattern (finding F7): like the hello and capability
 patterns it must accept a namespace prefix on the element. Evaluated by the kernel on the
 extracted term; fails on a tree whose pattern is `(?i)<session-id>(\d+)</session-id>`. -/
